@@ -27,8 +27,7 @@ fn add_types_recursive(
 )
     «requires
         types_wf(module), // [C08.types-pre] naga's UniqueArena is built bottom-up
-        0 <= handle_index(ty) < ntypes(module),
-        closed_upto(module, old(types)@, handle_index(ty)), // every finished type at or below `ty` already has its contents in the set (in-progress ancestors have larger handles)
+        type_call_ok(module, old(types)@, handle_index(ty)), // `ty` is a type of the module, and every finished type at or below `ty` already has its contents in the set (in-progress ancestors have larger handles)
     ensures
         smono(old(types)@, final(types)@), // [C08.closure-mono] nothing is removed
         all_reached(module, final(types)@, handle_index(ty)), // [C08.closure-complete] [C05.host-set] [C09.host-set] (the host-shareable set that decides layout assertions and derives is this closure) every type reachable from `ty` through members, arrays, runtime arrays, pointers, binding arrays is in the set
@@ -41,24 +40,15 @@ fn add_types_recursive(
     let ghost v0 = types@;»
     // Types can be shared, so only visit each type once.
     if !types.insert(ty) {
-        «proof {
-            assert(seen(v0, t));
-            assert forall|d: int| #[trigger] reach(module, t, d) implies seen(v0, d) by { lemma_closed_reach(module, v0, t, t, d); }
-        }»
+        «proof { assert(types@ == v0); lemma_seen_already(module, v0, t); }»
         return;
     }
     «let ghost v1 = types@;
-    proof {
-        assert(v1 =~= v0.insert(mk_handle(t)));
-        assert(!seen(v0, t));
-        lemma_unseen_insert(module, v0, t);
-        axiom_mk_handle_idx::<naga::Type>(t);
-        assert forall|d: int| seen(v1, d) implies seen(v0, d) || d == t by { axiom_mk_handle_idx::<naga::Type>(d); }
-    }»
+    proof { lemma_enter(module, v0, v1, t); }»
 
     match &module.types[ty].inner {
-        naga::TypeInner::Pointer { base, .. } => «{ proof { lemma_one_child_pre(module, v0, v1, t, handle_index(*base)); } let __r =» add_types_recursive(types, module, *base)«; proof { lemma_one_child_post(module, v0, v1, types@, t, handle_index(*base)); } __r }»,
-        naga::TypeInner::Array { base, .. } => «{ proof { lemma_one_child_pre(module, v0, v1, t, handle_index(*base)); } let __r =» add_types_recursive(types, module, *base)«; proof { lemma_one_child_post(module, v0, v1, types@, t, handle_index(*base)); } __r }»,
+        naga::TypeInner::Pointer { base, .. } => add_types_recursive(types, module, *base),
+        naga::TypeInner::Array { base, .. } => add_types_recursive(types, module, *base),
         naga::TypeInner::Struct { members, .. } => {
             for member in «it:» members
                 «invariant
@@ -66,51 +56,23 @@ fn add_types_recursive(
                     it.seq().len() == members@.len(),
                     forall|k: int| 0 <= k < it.seq().len() ==> *(#[trigger] it.seq()[k]) == members@[k],
                     (match ty_at(module, t).inner { naga::TypeInner::Struct { members: ms, .. } => ms@ == members@, _ => false }),
-                    closed_upto(module, v0, t), !seen(v0, t), seen(types@, t),
-                    smono(v0, types@), unseen(module, types@) < unseen(module, v0),
-                    forall|d: int| #[trigger] seen(types@, d) && !seen(v0, d) ==> reach(module, t, d),
-                    forall|a: int, b: int| seen(types@, a) && !seen(v0, a) && a != t && #[trigger] edge(module, a, b) ==> seen(types@, b),
-                    forall|k: int, d: int| 0 <= k < it.index@ && #[trigger] reach(module, handle_index(members@[k].ty), d) ==> seen(types@, d),»
+                    entered(module, v0, t), frame(module, v0, types@, t), unseen(module, types@) < unseen(module, v0),
+                    forall|k: int| 0 <= k < it.index@ ==> all_reached(module, types@, handle_index(#[trigger] members@[k].ty)), // [C08.closure-complete] [C05.host-set] [C09.host-set] every member type looked at so far has been closed over»
             {
                 «broadcast use axiom_uarena_index_req, axiom_handle_key_model, axiom_mk_handle, vstd::std_specs::hash::group_hash_axioms;
-                let ghost k = it.index@ as int;
                 let ghost vk = types@;
-                assert(*it.seq()[k] == members@[k]);
-                let ghost c = handle_index(member.ty);
-                proof {
-                    assert(edge(module, t, c));
-                    lemma_child_pre(module, v0, vk, t, c);
-                }»
+                proof { lemma_child_ready(module, v0, t); assert(*it.seq()[it.index@ as int] == members@[it.index@ as int]); assert(edge(module, t, handle_index(member.ty))); }»
                 add_types_recursive(types, module, member.ty);
-                «proof {
-                    lemma_unseen_mono(module, vk, types@);
-                    lemma_child_post(module, v0, vk, types@, t, c);
-                    assert forall|kk: int, d: int| 0 <= kk < k + 1 && #[trigger] reach(module, handle_index(members@[kk].ty), d) implies seen(types@, d) by {}
-                }»
+                «proof { lemma_frame_step(module, v0, vk, types@, t, handle_index(member.ty)); lemma_unseen_mono(module, vk, types@); }»
             }
-            «proof {
-                assert forall|d: int| #[trigger] reach(module, t, d) implies seen(types@, d) by {
-                    if d != t {
-                        let c = choose|c: int| 0 <= c < t && #[trigger] edge(module, t, c) && reach(module, c, d);
-                        let k = choose|k: int| 0 <= k < members@.len() && handle_index(#[trigger] members@[k].ty) == c;
-                        assert(reach(module, handle_index(members@[k].ty), d));
-                    }
-                }
-                assert forall|a: int, b: int| seen(types@, a) && !seen(v0, a) && #[trigger] edge(module, a, b) implies seen(types@, b) by {
-                    if a == t { assert(reach(module, b, b)); assert(reach(module, t, b)); }
-                }
-            }»
         }
-        naga::TypeInner::BindingArray { base, .. } => «{ proof { lemma_one_child_pre(module, v0, v1, t, handle_index(*base)); } let __r =» add_types_recursive(types, module, *base)«; proof { lemma_one_child_post(module, v0, v1, types@, t, handle_index(*base)); } __r }»,
-        _ => «{
-            proof {
-                assert forall|d: int| #[trigger] reach(module, t, d) implies seen(types@, d) by {
-                    if d != t { let c = choose|c: int| 0 <= c < t && #[trigger] edge(module, t, c) && reach(module, c, d); }
-                }
-            }»
-            ()
-        «}»,
+        naga::TypeInner::BindingArray { base, .. } => add_types_recursive(types, module, *base),
+        _ => (),
     }
+    «proof {
+        if single_child(module, t) is Some { lemma_frame_step_if(module, v0, v1, types@, t, single_child(module, t)->0); }
+        lemma_leave(module, v0, types@, t);
+    }»
 }
 //@end
 
